@@ -70,6 +70,11 @@ CLAIMED = {
          "TLC checks on the reader specification (readFile as an order-insensitive fold, literal prefix/suffix discovery, union by exponent) that every layout of the class opens identically and yields exactly the recovery blocks stored beside the index; every layout (a seeded 4000 in the quick tier, all 60,480 in the thorough tier) is materialised by an independent reference writer whose bytes TLC first judges with Par2Format, then the real par2.Verify and par2.Repair run on it with two fixed damages and relative/absolute index paths, and TLC requires the same verify counts, every recovery block found, the same repair outcome and restored bytes as for gopar's own canonical output of the same data and damage.",
          "Small fixed data set (2 files / 3 slices); names restricted to ASCII; reference writer validated by the format specification rather than trusted.",
          "DESIGN.md section 5 C06"),
+ "C10": ("model_checking",
+         "Par1Format.tla truth layer over an independent PAR1 tokenizer judges what real par1.Create writes (header, control/set hash, UTF-16LE entries, parity = sum i^(v-1)*file_i over GF(2^8)/0x11D); TLC enumerates reader-direction layouts (non-saved entries at every position, comments, surrogate names) materialised by a reference writer and read by real par1.Verify/Repair",
+         "Writer direction: every file the real par1.Create writes for seeded sets is tokenized by an observer written from the PAR 1.0 specification and TLC (Par1Format.tla over GF(2^8)/0x11D) decides header fields, offsets and sizes, control hash, set hash, UTF-16LE entries and the parity data. Reader direction: TLC enumerates 2,752 cases = index layouts (1-3 saved entries with 0-2 entries not saved at every position, with/without comment, names with surrogate pairs) x damaged subsets x surviving volumes and checks that capacity alone decides; each is written by the reference writer (whose output Par1Format judges first) and read by the real par1.Verify and par1.Repair, TLC requiring counts over saved entries only, exact restoration within capacity and the typed too-few error otherwise.",
+         "Small files in the reader direction; reference writer validated by the format specification.",
+         "DESIGN.md section 5 C10"),
 }
 
 NOT_YET = "check under construction in this round; not claimed until it runs green on the unchanged tree"
